@@ -265,6 +265,8 @@ func Render(text string, codec Codec) {
 	// Compiled regular expressions live on the heap. Compiling them lazily
 	// saves memory if this function is never called.
 	initRegexpsOnce.Do(initRegexps)
+	// https://spec.commonmark.org/0.31.2/#insecure-characters
+	text = strings.ReplaceAll(text, "\x00", "\uFFFD")
 	p := blockParser{lines: lineSplitter{text, 0, 0}, codec: codec}
 	p.render()
 }
